@@ -24,10 +24,11 @@ class Ref:
     key = tuple(seq) if self.ad.order_matters else tuple(sorted(seq))
     if key not in self.cache:
       try:
-        acc = self.ad.fresh()
+        ad = getattr(self.ad, 'reference', self.ad)      # as_agg_fn routes are compared with the direct accumulator
+        acc = ad.fresh()
         if seq:
-          self.ad.add(acc, _rows(self.pool, list(key)))
-        self.cache[key] = ('ok', self.ad.result(acc))
+          ad.add(acc, _rows(self.pool, list(key)))
+        self.cache[key] = ('ok', ad.result(acc))
       except Exception as e:  # pylint: disable=broad-exception-caught
         self.cache[key] = ('err', f'{type(e).__name__}: {e}')
     return self.cache[key]
